@@ -30,7 +30,7 @@ def showStep (op : Op Nat) (o : Out Nat) (s : Stk Nat) : String :=
     | .clearSnapshot, _ => "c"
     | .restore, _ => "r"
     | _, _ => "?"
-  tag ++ ":" ++ showContents s
+  tag ++ ":" ++ showContents s ++ s!"|d{s.lengths.length}p{s.popped.length}"
 
 def runLine (line : String) : String :=
   match words line with
